@@ -89,3 +89,52 @@ func c19nilslot(c *core.Ctx, r *core.Reporter) {
 		r.Decide(bad == "", rule, core.SSAName(fn), c.Pos(fn.Pos()), orOKs(map[bool]string{true: "", false: "the value read from a slot is compared with nil at " + bad + ": a slot bound to nil is not restored"}[bad == ""], "slot values are written whatever they are; only the Unbound marker is skipped"))
 	}
 }
+
+// c19nilinitform: :initform nil is an initform - a slot defined with it starts bound to nil. In the functions that
+// write a definition back as source (LoadForm methods) the initform of a slot definition is never compared with
+// nil to decide whether the option is written; "no initform" is the Unbound marker. A class saved without its
+// :initform nil reloads with that slot unbound, and a second snapshot of the reloaded session is the same text,
+// so a fixed-point comparison of texts does not show it.
+func c19nilinitform(c *core.Ctx, r *core.Reporter) {
+	const rule = "C19.nilinitform"
+	r.Rule(rule, "in every LoadForm method that reads a slot definition's initform, the initform is not compared with nil: nil is a legal initform and is written like any other; only the Unbound marker means that none was given", 1)
+	for _, fn := range c.ModuleFuncs() {
+		if fn.Name() != "LoadForm" || fn.Blocks == nil || fn.Signature.Recv() == nil {
+			continue
+		}
+		reads, bad := 0, ""
+		for _, b := range fn.Blocks {
+			for _, in := range b.Instrs {
+				u, ok := in.(*ssa.UnOp)
+				if !ok || u.Op != token.MUL {
+					continue
+				}
+				fa, ok := u.X.(*ssa.FieldAddr)
+				if !ok || fieldName(fa) != "initform" {
+					continue
+				}
+				reads++
+				if u.Referrers() == nil {
+					continue
+				}
+				for _, rf := range *u.Referrers() {
+					bo, ok := rf.(*ssa.BinOp)
+					if !ok || (bo.Op != token.EQL && bo.Op != token.NEQ) {
+						continue
+					}
+					other := bo.Y
+					if other == ssa.Value(u) {
+						other = bo.X
+					}
+					if k, ok := other.(*ssa.Const); ok && k.IsNil() {
+						bad = bo.Parent().Prog.Fset.Position(bo.Pos()).String()
+					}
+				}
+			}
+		}
+		if reads == 0 {
+			continue
+		}
+		r.Decide(bad == "", rule, core.SSAName(fn), c.Pos(fn.Pos()), "the initform is compared with nil at: "+bad)
+	}
+}
